@@ -40,6 +40,44 @@ pub fn gen_note_library(r: &mut Rng) -> Vec<(String, String)> {
         .collect()
 }
 
+/// a note whose sections are preceded by a list (or not) in their parent's body: a heading, its own blocks ending in a
+/// bullet list / ordered list / paragraph, then two or three sub-sections with blocks of their own, then perhaps a second
+/// top-level section — a conversion of the second or third sub-section must leave the blocks before it where they are
+pub fn shaped_note(r: &mut Rng) -> String {
+    const W: &[&str] = &["alpha", "beta", "gamma", "delta", "eps", "zeta", "eta", "theta"];
+    let n = std::cell::Cell::new(0usize);
+    let word = |r: &mut Rng| {
+        n.set(n.get() + 1);
+        format!("{}{}", r.pick(W), n.get())
+    };
+    let body = |r: &mut Rng, out: &mut String| match r.below(4) {
+        0 => out.push_str(&format!("- {}\n- {}\n\n", word(r), word(r))),
+        1 => out.push_str(&format!("1.  {}\n2.  {}\n\n", word(r), word(r))),
+        2 => out.push_str(&format!("{} {}\n\n- {}\n\n", word(r), word(r), word(r))),
+        _ => out.push_str(&format!("{} {}\n\n", word(r), word(r))),
+    };
+    let mut out = String::new();
+    let top = r.chance(3, 4);
+    if top {
+        out.push_str(&format!("# {}\n\n", word(r)));
+    }
+    body(r, &mut out);
+    let sub = if top { "##" } else { "#" };
+    for _ in 0..r.range(2, 4) {
+        out.push_str(&format!("{} {}\n\n", sub, word(r)));
+        if r.chance(2, 3) {
+            body(r, &mut out);
+        }
+        if r.chance(1, 3) {
+            out.push_str(&format!("{}# {}\n\n{}\n\n", sub, word(r), word(r)));
+        }
+    }
+    if top && r.chance(1, 3) {
+        out.push_str(&format!("# {}\n\n{}\n", word(r), word(r)));
+    }
+    out
+}
+
 /// what the model says about the actions at (key, line) vs the implementation
 pub fn compare_actions(model: &mut Model, lib: &Lib, ext: &str, key: &str, line: u32, kinds: &[&str], real: &Result<Vec<(String, u64, Result<Vec<Change>, String>)>, String>) -> Option<Result<(), String>> {
     let h = History { ext: ext.to_string(), import: lib.iter().map(|(k, v)| (k.clone(), v.clone())).collect(), steps: vec![] };
@@ -245,7 +283,18 @@ pub fn run(ctx: &Ctx, model: &mut Model, rep: &mut Report) {
     let n = if ctx.thorough { 1500 } else { 60 };
     for i in 0..n {
         let mut r = Rng::for_case(ctx.seed ^ 0xC10, i as u64);
-        let lib = gen_note_library(&mut r);
+        let mut lib = gen_note_library(&mut r);
+        if i % 3 == 1 {
+            // every third case: a small outline whose sections follow a list or a paragraph of their parent
+            let text = shaped_note(&mut r);
+            let big = if lib.iter().find(|(k, _)| k == "d/x").map(|(_, t)| t.len()).unwrap_or(0) > lib.iter().find(|(k, _)| k == "a").map(|(_, t)| t.len()).unwrap_or(0) { "d/x" } else { "a" };
+            for (k, t) in lib.iter_mut() {
+                if k == big {
+                    *t = text.clone();
+                }
+            }
+            rep.count("shaped_outline_cases");
+        }
         let ext = if i % 3 == 0 { ".md" } else { "" };
         let Some(l0) = act::formatted(&lib, ext) else { continue };
         let key = if l0.get("d/x").map(|t| t.len()).unwrap_or(0) > l0.get("a").map(|t| t.len()).unwrap_or(0) { "d/x" } else { "a" };
